@@ -144,13 +144,18 @@ def make_case(args):
             pass
         da.values[...] = real
     try:
-        impl["tpS"] = sp.tp(smooth=True)
-        impl["tpD"] = sp.tp(smooth=False)
-        impl["fpS"] = sp.fp(smooth=True)
-        impl["alphaS"] = sp.alpha(smooth=True)
-        impl["alphaD"] = sp.alpha(smooth=False)
-        impl["gammaS"] = sp.gamma(smooth=True, scaled=True)
-        impl["gammaRawD"] = sp.gamma(smooth=False, scaled=False)
+        # the smooth flag as callers pass it: the literals, but also numpy booleans / integers (results of comparisons,
+        # values read from configuration)
+        T = rng.choice([True, True, np.bool_(True), 1, np.int64(1)])
+        Fa = rng.choice([False, False, np.bool_(False), 0])
+        impl["tpS"] = sp.tp(smooth=T)
+        impl["tpD"] = sp.tp(smooth=Fa)
+        impl["fpS"] = sp.fp(smooth=T)
+        impl["fpD"] = sp.fp(smooth=Fa)
+        impl["alphaS"] = sp.alpha(smooth=T)
+        impl["alphaD"] = sp.alpha(smooth=Fa)
+        impl["gammaS"] = sp.gamma(smooth=T, scaled=True)
+        impl["gammaRawD"] = sp.gamma(smooth=Fa, scaled=False)
         if not oned:
             impl["dp"] = sp.dp()
             impl["dpm"] = sp.dpm()
@@ -261,9 +266,11 @@ def run_check():
             ck.disagree("tp(discrete)", f"impl={tpD_i} model={None if fpD is None else float(1 / fpD)}", case)
         if not close(at("fpS"), fpS, rel=rel_t):
             ck.disagree("fp", f"impl={at('fpS')} model={None if fpS is None else float(fpS)}", case)
+        if not close(at("fpD"), fpD, rel=2e-6):
+            ck.disagree("fp(discrete)", f"impl={at('fpD')} model={None if fpD is None else float(fpD)}", case)
         # ---- property oracle on the implementation
         if bp is None:
-            for nm, v in (("tp(smooth)", tpS_i), ("tp(discrete)", tpD_i), ("fp", at("fpS"))):
+            for nm, v in (("tp(smooth)", tpS_i), ("tp(discrete)", tpD_i), ("fp", at("fpS")), ("fp(discrete)", at("fpD"))):
                 if not math.isnan(v):
                     ck.fail(nm, f"no interior peak but {nm}={v} (expected NaN)", case)
         else:
